@@ -158,6 +158,22 @@ CHECKS = {
              "unknown / non-node class names and random strings over the grammar alphabet.",
         note="Trusted: lark LALR + contextual lexer re-modelled by hand (a disagreement on garbage input would be a false alarm of the check, to be fixed in the model); Python `re` compile; whitespace only between tokens and after the last one.",
         design="5/C17"),
+    "C18": dict(
+        technique="Lean 4 proof (partial): heap + registry state machine of the legacy parent-aware nodes as coded; structural-consistency invariant preserved by construct / attach / detach / detach_self / duplicate for all states, replace / replace_with for receivers without a parent + op-by-op differential correspondence and the invariant oracle on the real objects over random admissible histories",
+        text="Theorems: inv_init, inv_step_new / attach / detach / dup (all states, no admissibility hypothesis), parent_is_holder / holder_is_parent, ancestors_chain, cid_eq_spec (cached content id = that of an "
+             "independently built equal tree); PARTIAL: inv_step_replace_partial / inv_step_rwith_partial (receiver without a parent), inv_run_partial over histories inside the proved fragment; the "
+             "'receiver has a parent' branch of replace / replace_with (needs the invariant with one hole + _replace_child + the _reset_content_id walk) and the transform visitor / transformer are not "
+             "proved: they are covered by the correspondence (state dump of every object after every op vs the model) and by evaluating the invariant directly on the real objects after every operation "
+             "(about 190 000 ops per thorough run).",
+        note="Partial proof (see PARTIAL in evidence). Trusted: sha256 idealised; Python object model of mutable dataclasses; model tied by correspondence; hangs guarded by a 2 s CPU alarm per library call.",
+        design="5/C18"),
+    "C19": dict(
+        technique="Lean 4 proof (partial): failure-frame theorems on the legacy state machine (a rejected construct / attach / replace leaves every pre-existing record and the registry unchanged) + frame oracle on the real objects for every rejected operation of a directed stream of to-be-rejected ops",
+        text="Theorems: fail_frame_new, fail_frame_attach (state unchanged), detach_never_rejected, fail_frame_replace_keys, fail_frame_replace (the repaired rollback, any receiver, under Inv), "
+             "fail_frame_rwith_precheck. PARTIAL: replace_with rejected by the attach of the new node, a rejected non-clone duplicate and the transformers have no theorem; they are explored by the frame oracle "
+             "(rejections arising at first / middle / last child, direct child or grandchild, attached or detached arguments). Three known findings (transformers commit node by node, no roll-back across nodes) are listed by signature.",
+        note="Partial proof; known findings in known_findings.json (C19 frame|texec…, frame|tvisit…). Trusted as C18.",
+        design="5/C18"),
     "C20": dict(
         technique="Lean 4 proof: legacy dfs/bfs/gather loops simulate the C05 loops (start node offered like any position), legacy xpath match = `sat` via the C07 reversal theorem, calculate_xpath spells chains + differential correspondence on legacy trees",
         text="Theorems: ldfs/lbfs/lgather = [start offered to filter/prune] ++ C05 spec (skip_self: exactly the C05 spec), legacy match = documented semantics along the parent chain (all index digits), "
